@@ -396,6 +396,26 @@ def run(tier="quick"):
     fatal_cannot_return(prog, chk)
     for x in o[n0:]:
         x.rule = "S2"
+    # S3 the runtime level every gate reads belongs to the client: no function of the library stores to it (silencing output must
+    # not change which assertions are fatal or which debug statements evaluate their arguments)
+    chk.rule("S3", "no library function stores to the runtime debug level the gates read")
+    full = facts.extract()
+    from ..facts import walk as _walk
+    writers = []
+    nfn = 0
+    for f_ in full.all_functions():
+        if f_.body is None:
+            continue
+        nfn += 1
+        for x in _walk(f_.body):
+            if x.get("k") == "assign" or (x.get("k") == "un" and x.get("op") in ("++", "--", "&")):
+                t = X.strip(x["ch"][0])
+                if t is not None and t.get("k") == "ref" and t.get("rk") == "global" and t.get("n") == "libast_debug_level":
+                    writers.append((f_, x))
+    chk.ob("S3", "libast", "level-not-written", not writers, loc=writers[0][0].loc(writers[0][1]) if writers else "src/",
+           detail="%s stores to (or takes the address of) libast_debug_level (%s): the level the ASSERT / REQUIRE / D_x gates read changes "
+                  "behind the client's back" % (writers[0][0].name if writers else "", X.render(writers[0][1])[:40] if writers else ""),
+           proof="%d functions of the library, none writes libast_debug_level" % nfn)
     chk.analysed = {"debug_matrix": matrix, "d_macros": {d: levels.get(d) for d in dnames}, "dprintf": dpn,
                     "units": ["la_probe.c (generated, real headers)", "msgs.c"]}
     chk.assume("the D_x level L is the header's own DEBUG_<X> constant; runtime levels sampled 0..11 and around 9999 cover every threshold in the matrix")
